@@ -124,7 +124,7 @@ class TlcResult:
         self.out = out
         self.rc = rc
         self.wall = wall
-        m = re.findall(r"(\d[\d,]*) states generated, (\d[\d,]*) distinct states found, (\d[\d,]*) states left", out)
+        m = re.findall(r"(\d[\d,]*) states generated(?: \([\d,]+ s/min\))?, (\d[\d,]*) distinct states found(?: \([\d,]+ ds/min\))?, (\d[\d,]*) states left", out)
         self.generated = int(m[-1][0].replace(",", "")) if m else 0
         self.distinct = int(m[-1][1].replace(",", "")) if m else 0
         self.left = int(m[-1][2].replace(",", "")) if m else 0
